@@ -37,7 +37,7 @@ def handleAlgo : Sexp → Option Sexp
       | "add" => pure (polyToSexp (add p q))
       | "sub" => pure (polyToSexp (sub p q))
       | "mul" => pure (polyToSexp (mul p q))
-      | "divmod" => pure (match divmod p q with
+      | "divmod" => pure (match divmodPy p q with
           | some (a, b) => .list [polyToSexp a, polyToSexp b]
           | none => .atom "ZeroDivisionError")
       | _ => none
